@@ -1546,6 +1546,9 @@ class _SessionTrackingClient:
         token = hdrs.get(SESSION_HEADER) or hdrs.get(SESSION_HEADER.lower())
         if token:
             self._view._token = token
+            # A session opened after an earlier close (or detach) in this view
+            # is live again: the exit-time DELETE must cover it.
+            self._view._closed = False
         # Capture VGI-Echo-* on every response (cheap; only emitted on session
         # open, so subsequent responses are no-ops). httpx2 headers are
         # case-insensitive but _SyncTestResponse stores lowercase — iterate
